@@ -645,3 +645,83 @@ def c05_forward_cover(tier, rng):
         viol.append({"obligation": "C05.forward_alignments_cover.nontrivial", "inputs": None, "observed": "no cluster was split in %d cases" % n,
                      "required": "some split clusters", "undecided": True})
     return {"cases": n, "bound": "%d random clusters (%d of them split into several pieces)" % (n, split), "violations": viol, "samples": [{"seed": base, "split": split}]}
+
+
+# ---- the alignment statistics of the log against the record flags of the input ----------------------------------------------------------------------------
+def _alignment_statistics_problems(extra):
+    """a pipeline run on the bundled reads with a tenth of the records copied as secondary records, a twentieth as supplementary ones and 7
+    unmapped records added: the 'overall alignment statistics' block of the log equals the per-category record counts of the BAM"""
+    import gzip, os, re, shutil
+    import pysam
+    from contracts import c_novel
+    want = {}
+
+    def prepare(d):
+        inp = pysam.AlignmentFile(os.path.join(d, "chr9.4M.ont.sim.polya.bam"))
+        recs = []
+        for k, a in enumerate(x for x in inp if not x.is_unmapped):
+            recs.append(a)
+            if k % 10 == 3:
+                b = pysam.AlignedSegment.fromstring(a.to_string(), inp.header)
+                b.flag = b.flag | 256
+                recs.append(b)
+            if k % 20 == 7:
+                b = pysam.AlignedSegment.fromstring(a.to_string(), inp.header)
+                b.flag = b.flag | 2048
+                recs.append(b)
+        unm = []
+        for k in range(7):
+            u = pysam.AlignedSegment(inp.header)
+            u.query_name, u.flag, u.query_sequence = "unmapped_%d" % k, 4, "ACGT" * 20
+            u.query_qualities = pysam.qualitystring_to_array("I" * 80)
+            unm.append(u)
+        recs.sort(key=lambda x: (x.reference_id, x.reference_start))
+        with pysam.AlignmentFile(os.path.join(d, "flags.bam"), "wb", template=inp) as out:
+            for a in recs + unm:
+                out.write(a)
+        pysam.index(os.path.join(d, "flags.bam"))
+        c = {"primary": 0, "secondary": 0, "supplementary": 0, "unaligned": 0}
+        for a in recs + unm:
+            c["unaligned" if a.is_unmapped else "secondary" if a.is_secondary else "supplementary" if a.is_supplementary else "primary"] += 1
+        want.update(c)
+        return "flags.bam", "chr9.4M.gtf.gz"
+    d, p = c_novel._run_pipeline(["--no_model_construction"] + list(extra), True, prepare)
+    problems = []
+    try:
+        if p.returncode != 0:
+            return ["isoquant %s exited %d: %s" % (extra, p.returncode, p.stderr[-300:])]
+        logs = [os.path.join(r, f) for r, _, fs in os.walk(os.path.join(d, "out")) for f in fs if f == "isoquant.log"]
+        lines = open(logs[0]).read().splitlines() if logs else (p.stdout + p.stderr).splitlines()
+        start = [i for i, l in enumerate(lines) if "overall alignment statistics" in l]
+        got = {}
+        if start:
+            for l in lines[start[-1] + 1:]:
+                m = re.search(r" - (\w+): (\d+)\s*$", l)
+                if not m:
+                    break
+                got[m.group(1)] = int(m.group(2))
+        if not got:
+            problems.append("%s: no alignment statistics in the log" % (extra or "default"))
+        elif {k: got.get(k, 0) for k in want} != want:
+            problems.append("%s: the log reports %s, the input has %s" % (" ".join(extra) or "default", got, want))
+    finally:
+        shutil.rmtree(d, ignore_errors=True)
+    return problems
+
+
+def replay_alignment_statistics(d):
+    p = _alignment_statistics_problems(d["inputs"]["options"])
+    return (not p), "options %s: %s" % (d["inputs"]["options"], p or "log statistics equal the record counts")
+
+
+@bounded("C05.alignment_statistics", ["C05"], note="pipeline runs (default and --no_secondary; thorough: also with --high_memory) on the bundled reads with added secondary, "
+         "supplementary and unmapped records: the alignment statistics in the log equal the per-category record counts of the input")
+def c05_alignment_statistics(tier, rng):
+    configs = [[], ["--no_secondary"]] + ([["--high_memory"], ["--no_secondary", "--high_memory"]] if tier != "quick" else [])
+    for extra in configs:
+        p = _alignment_statistics_problems(extra)
+        if p:
+            return {"cases": len(configs), "bound": "pipeline runs", "violations": [{
+                "obligation": "C05.alignment_statistics", "inputs": {"options": extra}, "observed": p[:2],
+                "required": "log statistics = record counts of the input", "replay_call": "contracts.c_alignments:replay_alignment_statistics"}]}
+    return {"cases": len(configs), "bound": "%d pipeline runs" % len(configs), "violations": [], "samples": [{"options": ["--no_secondary"]}]}
